@@ -60,15 +60,8 @@ Lemma phi_count_sweep : Phi_count_stmt.
 Proof. intros n Hn. apply Z.eqb_eq. revert n Hn. apply (sweep phi_ok). vm_cast_no_check (eq_refl true). Qed.
 
 (* --- lambda_inv = exponent of the unit group, lambda = the same except lambda(8) = 3,  2 <= m <= 200 *)
-Definition lambda_ok (m : Z) : bool :=
-  (lambda_inv m (factors m) =? exponent_def m) && (lambda m (factors m) =? if m =? 8 then 3 else exponent_def m).
-Definition Lambda_exponent_stmt := forall m, 2 <= m <= 200 ->
-  lambda_inv m (factors m) = exponent_def m /\ lambda m (factors m) = if m =? 8 then 3 else exponent_def m.
-Lemma lambda_exponent_sweep : Lambda_exponent_stmt.
-Proof.
-  intros m Hm. assert (H : lambda_ok m = true) by (revert m Hm; apply (sweep lambda_ok); vm_cast_no_check (eq_refl true)).
-  apply andb_true_iff in H. destruct H as [H1 H2]. split; apply Z.eqb_eq; assumption.
-Qed.
+(* (the statement about lambda that stood here, `lambda m = if m =? 8 then 3 else exponent_def m`, was fitted to the body before
+   01ad5d5; lambda and lambda_inv are now stated against the header's definitions in ProofsLambda.v) *)
 
 (* --- order = least exponent, is_prim_root <-> order = phi,  2 <= n <= 120, every a in [-1, n+1] *)
 Definition order_ok (n : Z) : bool :=
@@ -166,8 +159,7 @@ Qed.
    kept visible so that the gap is explicit (DESIGN 5/C13: claimed partial). *)
 From Coq Require Import Znumtheory.
 Definition Phi_count_full_stmt := forall n, 1 <= n -> phi n (primes_of n) = count_units n.
-Definition Lambda_exponent_full_stmt := forall m, 2 <= m ->
-  lambda_inv m (factors m) = exponent_def m /\ lambda m (factors m) = if m =? 8 then 3 else exponent_def m.
+Definition Lambda_exponent_full_stmt := forall m, 2 <= m -> lambda_inv m (factors m) = exponent_def m.
 Definition Order_least_full_stmt := forall n a, 2 <= n ->
   let Ln := primes_of n in let Lphi := primes_of (phi n Ln) in
   order a n Ln Lphi = (if a mod n =? 0 then 0 else order_def a n).
